@@ -245,7 +245,52 @@ def _outcome(o):
     return o["outcome"]
 
 
+def _baseline_history(plan):
+    rng = random.Random(plan["run_seed"] ^ 0xBA5E)
+    return [_concretise(rng, b, canonical=True) for b in sorted(plan["base"], key=lambda b: b["key"])]
+
+
+def _run_pair(plan):
+    """Two runs whose baseline interpreters disagreed on one request key."""
+    res = {"verdict": "ok", "violations": [], "stats": {}, "probes": {}, "skip": None, "digest": "pair"}
+    outs = []
+    for sub in plan["pair"]:
+        obs, err = _child(_baseline_history(sub), 0)
+        if obs is None:
+            res["verdict"] = "harness_error"
+            res["error"] = err
+            return res
+        outs.append({o["key"]: _outcome(o) for o in obs if o.get("key")})
+    common = set(outs[0]) & set(outs[1])
+    bad = sorted(k for k in common if outs[0][k] != outs[1][k])
+    if bad:
+        res["verdict"] = "violation"
+        res["violations"] = [{"properties": ["C15"], "oracle": "baseline_depends_on_history", "phase": "compare",
+                              "twin": 0, "detail": [bad[0], outs[0][bad[0]], outs[1][bad[0]]]}]
+    return res
+
+
+def cross_check(agg):
+    """Across the runs of a batch: the same request key must have the same baseline digest."""
+    seen = {}
+    out = []
+    plans = agg["extra"].get("plan", [])
+    canons = agg["extra"].get("canon", [])
+    for plan, canon in zip(plans, canons):
+        for k, v in canon.items():
+            if k in seen and seen[k][0] != v and len(out) < 3:
+                out.append({"i": -1, "seed": plan["run_seed"],
+                            "plan": {"engine": "P", "run_seed": plan["run_seed"], "hashseed": 0,
+                                     "pair": [seen[k][1], plan]},
+                            "violations": [{"properties": ["C15"], "oracle": "baseline_depends_on_history",
+                                            "phase": "cross-run", "twin": 0, "detail": [k, seen[k][0], v]}]})
+            seen.setdefault(k, (v, plan))
+    return out
+
+
 def run_plan(plan, cfg=None):
+    if "pair" in plan:
+        return _run_pair(plan)
     rng = random.Random(plan["run_seed"] ^ 0xBA5E)
     baseline_hist = [_concretise(rng, b, canonical=True) for b in sorted(plan["base"], key=lambda b: b["key"])]
     vio = []
@@ -364,7 +409,8 @@ def run_plan(plan, cfg=None):
 
     res["digest"] = hashlib.blake2b(json.dumps([[o.get("key"), _outcome(o), o.get("same_object_as")]
                                                 for o in vobs]).encode(), digest_size=8).hexdigest()
-    res["extra"] = {"triples": sorted([k, s] for k, s in triples), "canon": canon}
+    res["extra"] = {"triples": sorted([k, s] for k, s in triples), "canon": canon,
+                    "plan": {"run_seed": plan["run_seed"], "base": plan["base"]}}
     res["shape"] = res["digest"]
     res["nontrivial"] = len(triples) > 1
     res["n_triples"] = len(triples)
@@ -380,11 +426,15 @@ def _order_sig(rq):
 
 
 def fingerprint(plan, violation):
+    if "pair" in plan:
+        return f"{violation['oracle']} @ {(violation.get('detail') or [''])[0]}"
     d = violation.get("detail") or []
     return f"{violation['oracle']} @ {d[0] if d else ''}"
 
 
 def sample(plan, res):
+    if "pair" in plan:
+        return {"pair_of_runs": [p["run_seed"] for p in plan["pair"]]}
     return {"child_hashseed": plan["child_hashseed"],
             "history": [{k: v for k, v in rq.items() if k not in ("inputs", "key", "prob")}
                         for rq in plan["history"][:12]],
@@ -409,6 +459,8 @@ def summarise_extra(agg):
 
 
 def shrink_candidates(plan):
+    if "pair" in plan:
+        return
     h = plan["history"]
     n = len(h)
 
